@@ -317,7 +317,7 @@ theorem lazy_eq_eager_chain (ex ch : Rat) (chain : List Elem) (c : Ctx) (hc : ct
 -- non-vacuity: a root element read in an order that exercises the pre-reads and the dict hits
 example :
     let c : Ctx := ⟨⟨[("display", .val (.strs ["inline", "flow"])), ("float", .val (.kw "left")),
-                      ("width", .val (.dim 2 "em")), ("font_size", .val (.dim 150 "%"))], none, []⟩,
+                      ("width", .val (.dim 2 "em")), ("font_size", .val (.dim 150 "%"))], none, [], none⟩,
                     none, fun _ => .ok 16, 1 / 2, 1 / 2⟩
     (readSeq c [] ["display", "width", "float", "display", "font_size"]).map okVal =
       [some (.strs ["block", "flow"]), some (.dim 48 "px"), some (.kw "left"),
